@@ -18,8 +18,8 @@ from vlib.verdict import Case
 
 PROPERTY = 'C17'
 MANIFEST = {
- 'level_text': 'Lean 4 theorems about a model of utils.file.AtomicFile over an explicit file-system state with process-side write buffers (every primitive call is one step; a crash keeps the disk and drops the buffers): for every old content, every chunking of the new content, every buffering schedule, every tmp/backup configuration and every crash index the target is the old or the new version (crash_atomic), also along arbitrary histories of completed / aborted / killed flushes (history_versions) and, file by file, when several files are flushed in a row by world.flush() (multi_flush_atomic, files_independent); a completed flush installs exactly the new content; rollback never touches the target; temp and backup names differ from the target name; generated inventories show that the only AtomicFile call sites of ircdb/registry/dbi are the modelled callers and that nothing else in src/ opens a file for writing except a fixed list of record-level / journal writers (atomic_sites_cover, direct_writers_known), of which dbi.FlatfileMapping.add/set/remove are modelled separately (three-state theorem flat_add_states, flat_remove_atomic; finding C17-inplace-record-writers). The model is tied to /repo by extraction (call order and tests of AtomicFile.close/rollback/__init__, defaults, every call site in ircdb/registry/dbi) and by a differential run in which the real flush code of the six callers is killed (fork + os._exit) before and after every file-system call and the bytes found on disk are compared with the model state at that index; the property statement (bytes are old or new, the real loader accepts them, only the target is read) is evaluated on the implementation at every crash point.',
- 'level_note': 'Trusted: Lean kernel; axioms propext/Classical.choice/Quot.sound only; harness/extractors/atomicfile.py; the CrashBox wrappers (a file-system call the wrappers do not see is not a crash point); POSIX semantics assumed by the model: rename within one file system is atomic, open(p,"a") does not change existing content, process death loses exactly the user-space buffers (no power loss, no fsync reasoning). Modelled and proved: AtomicFile.__init__/write/writelines/close/rollback/__del__, shutil.copy (backup) and shutil.move call sequences, name construction (os.path.join/basename). Callers are exercised (their write patterns are arbitrary chunk lists in the model): users, channels, networks, ignores, a synthetic registry, the full supybot registry (registry.close as scripts/supybot and Config.export call it), FlatfileMapping.vacuum, and world.flush() over five files incl. userdata.conf; loaders are exercised only. cdb / utils.transaction journals and DirMapping are inventoried and (DirMapping) crash-run but not modelled.',
+ 'level_text': 'Lean 4 theorems about a model of utils.file.AtomicFile over an explicit file-system state with process-side write buffers (every primitive call is one step; a crash keeps the disk and drops the buffers): for every old content, every chunking of the new content, every buffering schedule, every tmp/backup configuration and every crash index the target is the old or the new version (crash_atomic), also along arbitrary histories of completed / aborted / killed flushes (history_versions) and, file by file, when several files are flushed in a row by world.flush() (multi_flush_atomic, files_independent); a completed flush installs exactly the new content; rollback never touches the target; temp and backup names differ from the target name; generated inventories show that the only AtomicFile call sites of ircdb/registry/dbi are the modelled callers and that nothing else in src/ opens a file for writing except a fixed list of record-level / journal writers (atomic_sites_cover, direct_writers_known), of which dbi.FlatfileMapping.add/remove are modelled separately (flat_add_states, flat_add_atomic: below the counter line the file holds the old or the new records at every crash index; flat_remove_atomic) and FlatfileMapping.set now is an AtomicFile rewrite (flat_set_atomic). The model is tied to /repo by extraction (call order and tests of AtomicFile.close/rollback/__init__, defaults, every call site in ircdb/registry/dbi) and by a differential run in which the real flush code of the six callers is killed (fork + os._exit) before and after every file-system call and the bytes found on disk are compared with the model state at that index; the property statement (bytes are old or new, the real loader accepts them, only the target is read) is evaluated on the implementation at every crash point.',
+ 'level_note': 'Trusted: Lean kernel; axioms propext/Classical.choice/Quot.sound only; harness/extractors/atomicfile.py; the CrashBox wrappers (a file-system call the wrappers do not see is not a crash point); POSIX semantics assumed by the model: rename within one file system is atomic, open(p,"a") does not change existing content, process death loses exactly the user-space buffers (no power loss, no fsync reasoning). Modelled and proved: AtomicFile.__init__/write/writelines/close/rollback/__del__, shutil.copy (backup) and shutil.move call sequences, name construction (os.path.join/basename). Callers are exercised (their write patterns are arbitrary chunk lists in the model): users, channels, networks, ignores, a synthetic registry, the full supybot registry (registry.close as scripts/supybot and Config.export call it), FlatfileMapping.vacuum, and world.flush() over five files incl. userdata.conf; loaders are exercised only. Not modelled, and why: utils.transaction is imported by utils/__init__ but used nowhere (no Transaction(...) call site in src/ or plugins/); dbi.DirMapping is not offered by dbi.Mappings (unreachable; its crash run is in the evidence for information); cdb (the optional cdb mapping, not selected by any bundled plugin) rebuilds its file through Maker, an AtomicFile in wb mode, and replays an append-only journal on open — inventoried only.',
  'technique': 'Lean 4 proof (invariants over call sequences, all crash indices) + source extraction + differential crash injection with real process death',
  'design_ref': 'DESIGN.md §6 C17',
 }
@@ -28,7 +28,8 @@ THEOREMS = ['C17.crash_atomic', 'C17.flush_complete', 'C17.flush_skipped', 'C17.
             'C17.temp_never_read', 'C17.backup_not_target', 'C17.temp_not_backup',
             'C17.cross_device_counter', 'C17.close_calls_ok', 'C17.callers_ok',
             'C17.direct_writers_known', 'C17.atomic_sites_cover',
-            'C17.Flat.flat_add_states', 'C17.Flat.flat_remove_atomic', 'C17.Flat.flat_add_counter', 'C17.Flat.flat_set_counter']
+            'C17.flat_set_atomic', 'C17.Flat.flat_add_states', 'C17.Flat.flat_add_atomic', 'C17.Flat.flat_remove_atomic',
+            'C17.Flat.flat_add_counter', 'C17.Flat.flat_set_counter']
 TRUSTED = ['Lean 4.33.0 kernel; axioms ⊆ {propext, Classical.choice, Quot.sound}',
            'harness/extractors/atomicfile.py (AtomicFile call order/tests/defaults/call sites → Gen/AtomicFile.lean)',
            'harness/c17.py CrashBox: wrappers around builtins.open/file.write/file.close/os.rename/os.replace/os.unlink/os.remove/os.sendfile/os.chmod/os.utime/os.path.getsize/os.path.exists; fork + os._exit',
@@ -268,7 +269,7 @@ def gen_state(r, kind, n):
             recs.append({'name': 'val%d' % i, 'type': r.choice(['String', 'Integer', 'Boolean', 'Words']),
                          'v': r.randint(0, 10 ** r.randint(0, 6)), 's': rng.text(r, 14, 'abc xyz', 0.1, 0.1).replace('\0', ''),
                          'help': r.random() < 0.5})
-        elif kind == 'flat':
+        elif kind in ('flat', 'flatset'):
             recs.append({'s': rng.text(r, 20, 'abc:xyz,', 0, 0.1).replace('\n', ' ').replace('\r', ' '), 'dead': r.random() < 0.5})
     return recs
 
@@ -362,6 +363,23 @@ class Caller(object):
             return sorted(registry._cache.items())
         return (lambda: registry.close(g, path)), load
 
+    def flatset(self, state, path):
+        """FlatfileMapping.set: since its repair a rewrite of the whole database through AtomicFile"""
+        from supybot import dbi
+        def seed_file():
+            m = dbi.FlatfileMapping(path, maxSize=10 ** 4)
+            ids = [m.add(rec['s']) for rec in state]
+            for i, rec in zip(ids, state):
+                if rec['dead'] and i != ids[0]:
+                    m.remove(i)
+        def flush():
+            dbi.FlatfileMapping(path, maxSize=10 ** 4).set(1, 'the new text of record one')
+        def load():
+            m = dbi.FlatfileMapping(path, maxSize=10 ** 4)
+            return [m.currentId] + [list(x) for x in m]
+        flush.seed_file = seed_file
+        return flush, load
+
     def conf(self, state, path, private=True):
         """the bot's whole configuration: registry.close(conf.supybot, filename), as scripts/supybot does on exit"""
         registry = self.b.registry; conf = self.b.conf
@@ -397,7 +415,7 @@ class Caller(object):
         flush.seed_file = seed_file
         return flush, load
 
-KINDS = ['users', 'channels', 'networks', 'ignores', 'registry', 'flat']
+KINDS = ['users', 'channels', 'networks', 'ignores', 'registry', 'flat', 'flatset']
 BIG_KINDS = ['conf', 'confexport']      # the real supybot registry: thousands of writes, crash points sampled
 
 # configurations: (name, tmp, backup, allowEmpty, exdev)
@@ -610,7 +628,7 @@ def explore_scenario(b, callers, sc, loader_cache, sample_points=None):
     reset_dir(sc, None, plain=True)
     old_bytes = None
     set_defaults(b, sc)
-    if sc.kind == 'flat':
+    if sc.kind in ('flat', 'flatset'):
         flush, load = prep(sc.old_state or [], sc.target)
         in_child(lambda: flush.seed_file())
         with _real_open(sc.target, 'rb') as f:
@@ -620,7 +638,7 @@ def explore_scenario(b, callers, sc, loader_cache, sample_points=None):
         in_child(lambda: oflush())
         with _real_open(sc.target, 'rb') as f:
             old_bytes = f.read()
-    if sc.kind != 'flat':
+    if sc.kind not in ('flat', 'flatset'):
         flush, load = prep(sc.new_state, sc.target)
     # trace run
     reset_dir(sc, old_bytes)
@@ -724,7 +742,7 @@ def explore_scenario(b, callers, sc, loader_cache, sample_points=None):
     impl = ','.join(ops) + ';' + ','.join(impl_states)
     # model input
     td = sc.tmpdir(); bd = sc.backupdir()
-    mb = '0' if sc.kind == 'flat' else '1'
+    mb = '0' if sc.kind in ('flat', 'flatset') else '1'
     tok2 = token2 or ('f' * 40 if token != 'f' * 40 else 'e' * 40)
     line = '\t'.join([eff_outcome, wire.enc(sc.target), wire.enc_opt(td), wire.enc_opt(bd), mb, '1' if sc.allow_empty else '0',
                       wire.enc(token or ''), wire.enc(tok2), wire.enc(str(now)), '0' if sc.exdev else '1', str(BLK),
@@ -766,7 +784,7 @@ def scenarios(ctx, root, r, thorough):
     configs = CONFIGS + CONFIGS_X
     for kind in KINDS:
         for sizename, n_old, n_new in SIZES:
-            if kind == 'flat' and sizename in ('created', 'from-empty'):
+            if kind in ('flat', 'flatset') and sizename in ('created', 'from-empty'):
                 continue
             for cfg in configs:
                 if not thorough and cfg[0] in ('nobackup', 'nobackup-exdev') and sizename not in ('smaller', 'emptied'):
@@ -777,7 +795,7 @@ def scenarios(ctx, root, r, thorough):
                     continue
                 reps = 3 if thorough else 1
                 for _ in range(reps):
-                    if kind == 'flat':
+                    if kind in ('flat', 'flatset'):
                         st = gen_state(r, kind, max(n_old or 0, n_new) + 1)
                         if sizename == 'same':
                             for x in st: x['dead'] = False
@@ -793,10 +811,10 @@ def scenarios(ctx, root, r, thorough):
         # the configured path is a symbolic link (same directory / another directory), with and without an old file
         for tv in ('symlink-same-dir', 'symlink-other-dir'):
             for sizename, n_old, n_new in (('smaller', 3, 1), ('larger', 1, 3), ('created', None, 2)):
-                if kind == 'flat' and sizename == 'created':
+                if kind in ('flat', 'flatset') and sizename == 'created':
                     continue
                 for cfg in ((CONFIGS[0], CONFIGS[1]) if thorough or sizename != 'larger' else (CONFIGS[0],)):
-                    if kind == 'flat':
+                    if kind in ('flat', 'flatset'):
                         st = gen_state(r, kind, 4)
                         out.append(Scenario(root, kind, sizename, st, st, cfg, tvariant=tv))
                     else:
@@ -820,7 +838,7 @@ def scenarios(ctx, root, r, thorough):
         for cls in sorted(EXC):
             for j in ((0, 4, 17) if thorough else (r.choice([0, 1, 2]), r.choice([4, 9, 17]))):
                 st_o = gen_state(r, kind, 2); st_n = gen_state(r, kind, 3)
-                if kind == 'flat':
+                if kind in ('flat', 'flatset'):
                     for x in st_n: x['dead'] = False
                     st_n[0]['dead'] = True
                     out.append(Scenario(root, kind, 'interrupted', st_n, st_n, CONFIGS[0], outcome='raise:%s:%d' % (cls, j)))
@@ -828,7 +846,7 @@ def scenarios(ctx, root, r, thorough):
                     out.append(Scenario(root, kind, 'interrupted', st_o, st_n, CONFIGS[0] if j else CONFIGS[1], outcome='raise:%s:%d' % (cls, j)))
         # aborted flushes (caller raises: rollback through __del__)
         for cfg in (CONFIGS[0], CONFIGS[1]):
-            if kind != 'flat':
+            if kind not in ('flat', 'flatset'):
                 out.append(Scenario(root, kind, 'larger', gen_state(r, kind, 1), gen_state(r, kind, 2), cfg, outcome='abort'))
     return out
 
@@ -978,7 +996,7 @@ def build_model_line(sc, events, roles, old_bytes, outcome):
     token2 = TEMP_RE.match(os.path.basename(seen_path['s'])).group(2) if 's' in seen_path else None
     now = int(BACKUP_RE.match(os.path.basename(seen_path['b'])).group(2)) if 'b' in seen_path else 0
     tok2 = token2 or ('f' * 40 if token != 'f' * 40 else 'e' * 40)
-    mb = '0' if sc.kind == 'flat' else '1'
+    mb = '0' if sc.kind in ('flat', 'flatset') else '1'
     return '\t'.join([outcome, wire.enc(sc.target), wire.enc_opt(sc.tmpdir()), wire.enc_opt(sc.backupdir()), mb,
                       '1' if sc.allow_empty else '0', wire.enc(token), wire.enc(tok2), wire.enc(str(now)),
                       '0' if sc.exdev else '1', str(BLK), '~' if old_bytes is None else old_bytes.hex(),
@@ -1006,7 +1024,6 @@ def explore_inplace(b, root, r):
         return {'next': m.currentId, 'records': recs, 'dup': len(ids) != len(set(ids)),
                 'next_used': m.currentId in ids}
     ops = {'add': lambda: dbi.FlatfileMapping(sc.target, maxSize=10 ** 4).add('delta'),
-           'set': lambda: dbi.FlatfileMapping(sc.target, maxSize=10 ** 4).set(2, 'BETA'),
            'remove': lambda: dbi.FlatfileMapping(sc.target, maxSize=10 ** 4).remove(2)}
     reset_dir(sc, None, plain=True)
     in_child(seed)
@@ -1038,12 +1055,14 @@ def explore_inplace(b, root, r):
                 seq.append(h)
         off = old.index(b'0002:')
         mline = {'add': 'flatadd\t%s\t%s\t%s' % (old.hex(), b'0004:delta\n'.hex(), b'0005'.hex()),
-                 'set': 'flatset\t%s\t%d\t%s\t%s' % (old.hex(), off, b'----'.hex(), b'0002:BETA\n'.hex()),
                  'remove': 'flatremove\t%s\t%d\t%s' % (old.hex(), off, b'----'.hex())}[name]
         out.append({'writer': 'dbi.FlatfileMapping.' + name, 'state_sequence': seq, 'model_line': mline, 'calls': [e['k'] for e in (tr or {}).get('events', [])],
                     'crash_points': len(states), 'intermediate_states': len(inter),
                     'example_intermediate': inter[0] if inter else None,
                     'next_id_already_used': any(x['reads_as'] and x['reads_as'].get('next_used') for x in inter),
+                    # what matters: does every state on disk READ as the old or the new database, ids never reused?
+                    'bad_states': [x for x in inter if not x['reads_as'] or x['reads_as'].get('next_used') or x['reads_as'].get('dup')
+                                   or x['reads_as'].get('records') not in (d_old['records'], d_new['records'])],
                     'old_reads_as': d_old, 'new_reads_as': d_new})
     # DirMapping: one file per record + 'max'
     droot = os.path.join(root, 'conf', 'dirmap')
@@ -1217,14 +1236,16 @@ def extra_cases(ctx, thorough):
         (b.utils_file.AtomicFile.default.tmpDir, b.utils_file.AtomicFile.default.backupDir,
          b.utils_file.AtomicFile.default.allowEmptyOverwrite, b.utils_file.AtomicFile.default.makeBackupIfSmaller) = saved
     for x in inplace:
-        bad = x['intermediate_states'] > 0
+        if x['writer'].startswith('dbi.DirMapping'):
+            continue      # not reachable: dbi.Mappings offers 'flat' and 'cdb' only; reported in the evidence, judged nowhere
+        badst = x.get('bad_states') or []
         msg = ''
-        if bad:
-            msg = ('%s killed between two of its file-system calls leaves a third state that is neither the old nor the new '
-                   'database: %r [known class: in-place record writers]' % (x['writer'], x['example_intermediate']))
+        if badst:
+            msg = ('%s killed between two of its file-system calls leaves a database that reads as neither the old nor the new one '
+                   '(or hands out an id twice): %r' % (x['writer'], badst[0]))
         c = Case({'op': 'inplace', 'writer': x['writer'], 'calls': x['calls'], 'crash_points': x['crash_points']},
-                 impl=','.join(x['state_sequence']) if 'state_sequence' in x else None, oracle_ok=not bad, oracle_msg=msg,
-                 tags=['inplace', x['writer']], kind='inplace', finding=F_INPLACE if bad else None)
+                 impl=','.join(x['state_sequence']) if 'state_sequence' in x else None, oracle_ok=not badst, oracle_msg=msg,
+                 tags=['inplace', x['writer']], kind='inplace', finding=None)
         cases.append(c)
         if 'model_line' in x:
             lines.append(x['model_line']); pend.append((c, lambda o: ','.join(dedup(o.split(',')))))
@@ -1262,10 +1283,7 @@ def run(ctx):
         finally:
             os.environ['VERIF_SEED'] = str(ctx.seed)
         return [c for c in more if c.oracle_ok is False]
-    hit = [c for c in cases if c.finding == F_INPLACE and c.oracle_ok is False]
-    fstatus = {F_INPLACE: (bool(hit), 'dbi.FlatfileMapping.add / .set (the persistence path of every plugin database using the flat mapping; '
-                           'FlatfileMapping.flush is a no-op) write in place: killed between the record write and the counter / second write '
-                           'they leave a database that is neither the old nor the new one (%s)' % (hit[0].oracle_msg[:300] if hit else 'no longer reproduces'))}
+    fstatus = {}
     extras.update({'crash_points_killed': sum(c.input.get('crash_points', 0) for c in cases),
                    'scenarios': len([c for c in cases if c.kind != 'names'])})
     return verdict.conclude(PROPERTY, ctx.tier, ctx.seed, build, cases, search=search, rule=RULE,
